@@ -725,7 +725,7 @@ func checkRI(c Case, r *ev.Rec) error {
 		return fmt.Errorf("RouterInfo signature differs")
 	}
 	// B: constructor (Ed25519 only, KEY certificate, styles non-empty, null expirations)
-	cons := m.Ident.SigType == 7 && m.Ident.Cert.Type == 5 && m.Published < 8000000000000
+	cons := m.Ident.SigType == 7 && m.Ident.Cert.Type == 5 && m.Published < 1<<63
 	for _, a := range m.Addrs {
 		if len(a.Style) == 0 || a.Expiration != 0 {
 			cons = false
